@@ -172,6 +172,13 @@ impl World {
         self.finish(before, res)
     }
 
+    /// a step performed by the harness itself (the effect of a forged destination call)
+    pub fn manual_step<F: FnOnce(&mut ScenarioVMRunner)>(&mut self, f: F) -> Step {
+        let before = self.snapshot();
+        f(&mut self.r);
+        self.finish(before, TxResult::empty())
+    }
+
     pub fn call0(&mut self, from: &VMAddress, to: &VMAddress, func: &str, args: Vec<Vec<u8>>) -> Step {
         self.tx(from, to, func, args, &BigUint::from(0u32), &[])
     }
